@@ -59,6 +59,42 @@ def run(ctx):
             if "disagree" in str(e):
                 raise
             rows = sym_int_table(fv.node, fv.params[0])
+        # labels are matched EXACTLY: the label argument is only compared (==, in), used as a lookup key, type-tested, or
+        # quoted in the error message.  Any conversion on the way (int(), str(), .strip(), .lower(), float(), arithmetic)
+        # makes strings that are not labels ('05', ' 7', '+3', other objects) acceptable -- decided before the table is read
+        lp = tv.params[0]
+        conv = []
+        for x in ast.walk(tv.node):
+            if not (isinstance(x, ast.Name) and x.id == lp and isinstance(x.ctx, ast.Load)):
+                continue
+            par = getattr(x, "parent", None)
+            in_raise = False
+            q = par
+            while q is not None and not isinstance(q, ast.FunctionDef):
+                if isinstance(q, ast.Raise):
+                    in_raise = True
+                q = getattr(q, "parent", None)
+            if in_raise:
+                continue
+            if isinstance(par, ast.Compare):
+                continue
+            if isinstance(par, ast.Subscript) and par.slice is x:
+                continue
+            if isinstance(par, ast.Call) and isinstance(par.func, ast.Name) and par.func.id == "isinstance" and par.args and par.args[0] is x:
+                continue
+            if isinstance(par, ast.Call) and isinstance(par.func, ast.Attribute) and par.func.attr == "get" and par.args and par.args[0] is x \
+                    and isinstance(par.func.value, ast.Name):
+                continue
+            conv.append(par if par is not None else x)
+        obligations += 1
+        if run.check(not conv, "C20.exact-labels", key(m.relpath, sc["to_value"], "label-compared-as-given"),
+                     "the label is converted before it is matched: text that is not a label of the scale (or another kind of "
+                     "object) is accepted instead of refused", file=m.relpath, line=conv[0].lineno if conv else tv.node.lineno,
+                     function=sc["to_value"], expected="label only compared / looked up as given",
+                     found=[ast.unparse(c)[:80] for c in conv]):
+            discharged += 1
+        else:
+            continue
         try:
             ltab, ldefault = label_table(tv.node, tv.params[0])
         except AnalysisError:
@@ -185,5 +221,6 @@ def run(ctx):
     run.extra["tables"] = tables
     run.extra["functions"] = len(known)
     run.extra["exhaustive"] = True
+    run.floor("C20.exact-labels", 5)
     run.floor("C20.total", 5)
     run.floor("C20.specification", 5)
